@@ -171,6 +171,9 @@ func TestReplay(t *testing.T) {
 	if err != nil {
 		t.Fatal(err)
 	}
+	if replayRenamed(t, string(buf)) {
+		return
+	}
 	judge(t, "Replay", "replay", string(buf), false)
 }
 
